@@ -323,7 +323,11 @@ def evaluate(ctx, drv, cases):
                                     observed, MATCHERS)
                 if fid is None:
                     continue
-            # ---- 2. implementation against the code-shaped model
+            # ---- 2. implementation against the code-shaped model (only under the theorem's hypothesis;
+            #         outside it the comparison with the specification above is what counts)
+            if not r['hyp']:
+                ctx.dist['outside-hyp(bad empty entry)'] += 1
+                continue
             mcalls = [{'done': cl['done'], 'piece': cl['piece'],
                        'hash': None if cl['hash'] is None else common.sha1(_bytes_of(cl['hash'], now)),
                        'exc': _norm_model_exc(cl['exc'])} for cl in r['calls']]
